@@ -114,7 +114,11 @@ struct W1 {
                 }
                 if (b.cpl_cell == -2 || multi_pointed.count({(int)i, (int)k})) { res.probes.hit("c03_multi_coupled_skipped"); continue; }
                 bool uncoupled = b.cpl_cell < 0; int np = pointed.count({(int)i, (int)k}) ? pointed[{(int)i, (int)k}] : 0;
-                if (uncoupled && np == 0) {
+                bool pair_case = false;
+                if (!uncoupled && b.cpl_cell < (int)snap.size() && b.cpl_cell != (int)i && b.cpl_node < (int)snap[b.cpl_cell].n.size()) { const NodeSnap& o = snap[b.cpl_cell].n[b.cpl_node]; pair_case = o.used && o.cpl_cell == (int)i && o.cpl_node == (int)k && np == 1 && pointed[{b.cpl_cell, b.cpl_node}] == 1 && !snap[b.cpl_cell].is_static; }
+                // a node in a coupling that is not mutual is not part of a "mutually coupled pair": like any other live node it has to follow the scheme on its own
+                if (!pair_case && !(uncoupled && np == 0)) { res.probes.hit("c03_nonmutual_judged_as_single"); who << " (in a coupling that is not mutual: points at (" << b.cpl_cell << "," << b.cpl_node << "), pointed at by " << np << ")"; }
+                if (!pair_case) {
                     V3 xr, pr; double m = cs.mass;
 #if DYNAMIC_MODEL_INDEX == 0
                     pr = b.p + (b.f - b.p * (damp / m)) * dt; xr = b.x + pr * (dt / m);
@@ -126,10 +130,8 @@ struct W1 {
                     if ((x - xr).norm() > tolx) { std::ostringstream d; d << who.str() << ": position after the step differs from the integration law by " << (x - xr).norm() << " (step " << (xr - b.x).norm() << ", per-node mass " << m << ")"; res.fail("C03", "position_law", d.str()); return; }
                     if (f.n2() != 0) { res.fail("C03", "force_reset", who.str() + ": force accumulator not zero after the step"); return; }
                     res.probes.hit("c03_nodes_checked");
-                } else if (!uncoupled && np == 1 && b.cpl_cell < (int)snap.size() && b.cpl_cell != (int)i && b.cpl_node < (int)snap[b.cpl_cell].n.size()) {
+                } else {
                     const NodeSnap& o = snap[b.cpl_cell].n[b.cpl_node];
-                    bool mutual = o.used && o.cpl_cell == (int)i && o.cpl_node == (int)k && pointed[{b.cpl_cell, b.cpl_node}] == 1;
-                    if (!mutual || snap[b.cpl_cell].is_static) { res.probes.hit("c03_nonmutual_skipped"); continue; }
                     if ((int)i < b.cpl_cell) continue;      // judged from the partner with the larger index
                     const CellSnap& cs2 = snap[b.cpl_cell]; auto& N2 = cell_tester::nodes(*L[b.cpl_cell]);
                     V3 x2(N2[b.cpl_node].pos()), f2(N2[b.cpl_node].force());
@@ -147,7 +149,7 @@ struct W1 {
                     if ((d1 - dr).norm() > told) { res.fail("C03", "pair_law", who.str() + ": coupled pair's displacement differs from the law applied to the pair's mean force, momentum and mass"); return; }
                     if (f.n2() != 0 || f2.n2() != 0) { res.fail("C03", "force_reset", who.str() + ": force accumulator of a coupled pair not zero after the step"); return; }
                     res.probes.hit("c03_coupled_pairs_checked");
-                } else res.probes.hit("c03_nonmutual_skipped");
+                }
             }
         }
     }
